@@ -385,7 +385,13 @@ func runPFaultCase(c *Case, env *Env) *Result {
 	for k := 0; k < L; k += step {
 		// alternately an "interrupted" error and io.ErrShortWrite (what a size-limited
 		// writer reports; code that "tolerates" it must still write the right file)
-		o := exec(&WriteFault{After: k, Once: true, Short: (k/step)%2 == 1}, -1)
+		variant := (k / step) % 3
+		o := exec(&WriteFault{After: k, Once: true, Short: variant == 1, Full: variant == 2}, -1)
+		if variant == 2 && o.pi == nil && o.err == nil {
+			// the destination reported an error (together with a full count): it failed
+			res.Fail = &Fail{Prop: "C12", Oracle: "persist-fault", Kind: "silent-success", Site: writerSite(pc), Detail: fmt.Sprintf("%s: the write reaching byte %d of %d returned an error together with its full byte count, yet WriteTo returned nil", desc, k, L)}
+			return res
+		}
 		res.fault("writer-fails-once", 1, 1)
 		if o.pi != nil {
 			res.Fail = &Fail{Prop: "C12", Oracle: "persist-fault", Kind: "panic", Site: o.pi.Site, Detail: fmt.Sprintf("%s: writer failing once at byte %d of %d: panic: %s", desc, k, L, o.pi.Msg)}
